@@ -803,3 +803,44 @@ Proof.
 Qed.
 
 End Mixed.
+
+(* ---------- resync attempts whose GET fails ---------- *)
+
+Section GetFailures.
+Variable eps : Z.
+
+(* Theorem: a drain during which every GET fails changes nothing but the queue, from which it
+   only drops keys of tasks that are no longer held: the invariant, "every task that differs
+   from its pod is queued or awaiting" and "no pod still on the API server is dropped" survive *)
+Theorem allfail_keeps c (A : gset positive) :
+  Inv2 eps c -> QueuedA eps A c -> Cover c ->
+  Inv2 eps (drain_resync_allfail c) /\ QueuedA eps A (drain_resync_allfail c) /\ Cover (drain_resync_allfail c).
+Proof.
+  intros I HP HC. pose proof I as (R & So & Co). split; [apply (inv2_frame eps c); auto|]. split; [|exact HC].
+  intros i t Ht. simpl in Ht. destruct (HP i t Ht) as [Hl|[Hr|Ha]]; [left; exact Hl| |right; right; exact Ha].
+  destruct (decide (t_job t = no_job)) as [Hnj|Hnj].
+  - left. destruct (Co i t Ht) as (p & Hp & _ & B). exists p. split; [exact Hp|exact (B Hnj)].
+  - right. left. unfold drain_resync_allfail. cbn [c_errq with_errq]. apply elem_of_list_In, filter_In.
+    split; [apply elem_of_list_In; exact Hr|]. cbn [fst snd].
+    rewrite (stored_some c (t_job t) i t R Ht eq_refl Hnj). reflexivity.
+Qed.
+
+(* Theorem (repair is independent of the number of failed attempts): after ANY number [n] of
+   drains whose GETs all fail -- retryResyncTask re-queues the key every time, without bound --
+   one drain with the API server reachable repairs exactly as if there had been none *)
+Theorem repaired_after_failed_attempts c (A : gset positive) n :
+  Inv2 eps c -> QueuedA eps A c -> Cover c ->
+  let c' := drain_resync eps (Nat.iter n drain_resync_allfail c) in
+  Inv2 eps c' /\ (forall i t, c_heap c' !! i = Some t -> synced_at eps c' i t \/ i ∈ A) /\ Cover c'.
+Proof.
+  intros I HP HC.
+  assert (H : Inv2 eps (Nat.iter n drain_resync_allfail c) /\ QueuedA eps A (Nat.iter n drain_resync_allfail c) /\
+              Cover (Nat.iter n drain_resync_allfail c)).
+  { induction n as [|n IH]; [auto|]. simpl. destruct IH as (I1 & P1 & C1). apply allfail_keeps; auto. }
+  destruct H as (I1 & P1 & C1). cbv zeta.
+  destruct (drain_resync_inv2 eps _ I1) as (I' & _). destruct (drain_resync_A eps _ A I1 P1 C1) as [HQ' HC'].
+  split; [exact I'|]. split; [|exact HC'].
+  intros i t Ht. destruct (HQ' i t Ht) as [Hl|[Hr|Ha]]; [left; exact Hl|inversion Hr|right; exact Ha].
+Qed.
+
+End GetFailures.
